@@ -20,7 +20,7 @@ TECHNIQUE = ("runtime monitoring of sampling histories on real Samplers (direct 
              "logging generators, append-only table monitor and per-row decoding of the outputs")
 RULE = ("seeded histories of 1-6 runs of sample_combos / sow_samples+grow+reap with n in 1..12, combos overrides (lists "
         "and logging generators), runner constants, batch sizes, shuffle, engines pickle/csv, fresh Sampler objects "
-        "between runs, older still-open Samplers running again, sample crops reaped by a Crop re-created from disk, choices that are nanosecond dates, runs whose save fails once, tables under names that ask for compression; every post-run state is one judged observation; distinct by history prefix; non-trivial from "
+        "between runs, older still-open Samplers running again, sample crops reaped by a Crop re-created from disk, choices that are nanosecond dates, runs whose save fails once, tables under names that ask for compression; every post-run state is one judged observation; runs of 1030-1120 samples through a thread pool; samplers made by @label(sampler=...), tables named by a pathlib.Path, tables whose time stamp does not advance between runs; distinct by history prefix; non-trivial from "
         "the second run on")
 ASSUMPTIONS = [
     "'changes no earlier row' is judged as: the multiset of rows before the run is contained in the table after it, and the first rows are positionally the same",
